@@ -22,7 +22,7 @@ import warnings
 from typing import Any
 
 from harness import tasks as T
-from harness.apps import make_app
+from harness.apps import inject_status, make_app
 from harness.common import Ctx, LeanDriver, lean_stage, thorough_rebuild
 
 THEOREMS = [
@@ -350,7 +350,7 @@ class Outcome:
         self.impl: list[str] = []
         self.trace: list[list] = []            # resolved steps (replayable)
         self.flags: list[tuple[str, str, int]] = []  # (signature, what, index of the failing step in trace)
-        self.stats = {"die-whole-pool": 0, "die-unknown-or-dead-id": 0, "iter-with-dead-tracked": 0, "iter-all-dead": 0,
+        self.stats = {"retry-while-worker-tracked": 0, "die-whole-pool": 0, "die-unknown-or-dead-id": 0, "iter-with-dead-tracked": 0, "iter-all-dead": 0,
                       "beat-with-dead-tracked": 0, "iter-queue-loaded": 0}
         self.skipped = False
 
@@ -416,6 +416,19 @@ def do_step(im: Impl, task, out: Outcome, st: list) -> None:
         route(task, st[1]); out.trace.append(st); return
     if op == "drain":
         drain(im.app); out.trace.append(st); return
+    if op == "retry":
+        # the invocation a live worker of a one-process-per-invocation runner is executing is retried: RETRY and back in the queue
+        # while that worker is still exiting, so the SAME invocation can get a second worker (for the model: one more queued)
+        from pynenc.invocation.status import InvocationStatus as S
+        hs = im.handles()
+        infos = {getattr(v, "process", v).idx: v for v in im.runner.child_runner_ids.values()}
+        info = infos.get(st[1])
+        inv_id = getattr(info, "invocation_id", None)
+        if inv_id is not None and im.env.procs[st[1]].is_alive():
+            inject_status(im.app, inv_id, S.RETRY, None, 0)
+            im.app.broker.route_invocation(inv_id)
+            out.stats["retry-while-worker-tracked"] += 1
+        out.trace.append(st); return
     if op == "die":
         tr0, al0 = im.tracked(), im.alive()
         if tr0 and set(tr0) <= set(st[1]):
@@ -516,6 +529,32 @@ def subsets_policy(mask1: int, mask2: int, q0: int, q1: int):
     return pol
 
 
+def retry_policy(second_dies_first: bool):
+    """one-process-per-invocation runners: route 1 · iter · the running invocation is retried (RETRY, re-queued) while its worker is
+    still tracked · iter (a second worker for the same invocation) · the two workers die one after the other · iter x3 · route 2 · iter"""
+    plan = ["route1", "iter", "retry", "iter", "dieA", "iter", "dieB", "iter", "iter", "route2", "iter", "beat"]
+
+    def pol(im: Impl, k: int):
+        if k >= len(plan):
+            return None
+        p = plan[k]
+        tr = im.tracked()
+        if p == "route1":
+            return ["route", 1]
+        if p == "route2":
+            return ["route", 2]
+        if p == "retry":
+            return ["retry", tr[0]] if tr else ["skip"]
+        if p in ("dieA", "dieB"):
+            al = im.alive()
+            if not al:
+                return ["die", []]
+            pick = (al[-1] if second_dies_first else al[0]) if p == "dieA" else al[0]
+            return ["die", [pick]]
+        return [p]
+    return pol
+
+
 def random_policy(rng, length: int):
     def pol(im: Impl, k: int):
         if k >= length:
@@ -537,8 +576,10 @@ def random_policy(rng, length: int):
             return ["iter"]
         if x < 0.86:
             return ["beat"]
-        if x < 0.96:
+        if x < 0.93:
             return ["route", rng.choice([1, 1, 2, 3, 6])]
+        if x < 0.97 and im.kind == "process" and al:
+            return ["retry", rng.choice(al)]
         return ["drain"]
     return pol
 
@@ -785,6 +826,14 @@ def run(ctx: Ctx) -> None:
             for _ in range(reps):
                 length = ctx.rng.randint(6, 20 if ctx.quick else 48)
                 out = run_scripted(apps[be], tasks[be], kind, conf, cpu, random_policy(ctx.rng, length))
+                record({"kind": kind, "conf": conf, "cpu": cpu, "backend": be, "family": "B"}, out)
+    # ---- (B') a retried invocation gets a second worker while the first is still tracked ------------------------------
+    for kind, conf, cpu in cfgs:
+        if kind != "process":
+            continue
+        for be in ("mem", "sqlite"):
+            for flip in (False, True):
+                out = run_scripted(apps[be], tasks[be], kind, conf, cpu, retry_policy(flip))
                 record({"kind": kind, "conf": conf, "cpu": cpu, "backend": be, "family": "B"}, out)
     # ---- (C) the real run() loop ----------------------------------------------------------------------
     loop_cfgs = [c for c in cfgs if pool_bound(*c) <= 6]
